@@ -21,7 +21,7 @@ from dataclasses import dataclass, field, InitVar
 from enum import Enum, IntEnum
 from typing import (Any, Optional, Union, List, Sequence, Collection, MutableSequence, Set, AbstractSet,
     MutableSet, FrozenSet, Tuple, Dict, Mapping, MutableMapping, NamedTuple, NewType, Generic, TypeVar,
-    Literal, Annotated, TypedDict)
+    Literal, Annotated, TypedDict, Deque)
 import apischema
 from apischema import (alias, schema, validator, ValidationError, Undefined, UndefinedType, Unsupported,
     serialized, order, type_name, discriminator, dependent_required, deserializer, serializer, identity)
